@@ -280,7 +280,8 @@ func runC11(c *Ctx) {
 	// ---- R11.5
 	sites := 0
 	// acceptField: the receiver is field f of owner b, read at `at` in fn
-	acceptField := func(fn *ssa.Function, f *types.Var, b ssa.Value, at ssa.Instruction, depth int) (bool, string, bool) {
+	var acceptField func(fn *ssa.Function, f *types.Var, b ssa.Value, at ssa.Instruction, depth int) (bool, string, bool)
+	acceptField = func(fn *ssa.Function, f *types.Var, b ssa.Value, at ssa.Instruction, depth int) (bool, string, bool) {
 		p := ix.proverFor(fn)
 		ok, why, handled := func() (bool, string, bool) {
 			res := func(o bool, w string) (bool, string, bool) { return o, w, true }
@@ -330,6 +331,34 @@ func runC11(c *Ctx) {
 				})
 				if viaHelper {
 					return true, "the row's container was set, by a helper called earlier in this function, to the table's", true
+				}
+				// ... or this function is a helper handed the row, and at every one of its calls the row's container
+				// has been set by then (in the caller, or by a helper the caller ran first)
+				if par, isPar := b.(*ssa.Parameter); isPar && depth < 3 && par.Parent() == fn {
+					idx := -1
+					for k, q := range fn.Params {
+						if q == par {
+							idx = k
+						}
+					}
+					callers := ix.callSitesOf(fn)
+					if idx >= 0 && len(callers) > 0 {
+						all := true
+						for _, cs := range callers {
+							ci, isI := cs.Call.(ssa.Instruction)
+							args := cs.Call.Common().Args
+							if !isI || idx >= len(args) {
+								all = false
+								break
+							}
+							if okUp, _, _ := acceptField(cs.Fn, f, args[idx], ci, depth+1); !okUp {
+								all = false
+							}
+						}
+						if all {
+							return true, "at every call of this helper the row's container has already been set to the table's", true
+						}
+					}
 				}
 				// or the row is the receiver (of this function, or of the function a closure was made in) and every
 				// caller passes a row taken from the table
